@@ -45,9 +45,17 @@ OutsGet(outs, name, i) ==
   ELSE IF outs[i].s = name THEN [found |-> TRUE, v |-> outs[i].v]
   ELSE OutsGet(outs, name, i - 1)
 
+\* level A keeps the environment as a stack of functions (see Sem.tla); innermost scope wins
+ScopesGet(scopes, name) ==
+  LET hits == {k \in DOMAIN scopes : name \in DOMAIN scopes[k]}
+  IN  IF hits = {} THEN [found |-> FALSE]
+      ELSE [found |-> TRUE, v |-> scopes[CHOOSE k \in hits : \A j \in hits : j <= k][name]]
+
 \* a variable in scope takes precedence over a device output (C04)
 Lookup(cx, name) ==
-  LET r == IF cx.vars THEN FM_Get(cx.env, name) ELSE [found |-> FALSE]
+  LET r == IF ~cx.vars THEN [found |-> FALSE]
+           ELSE IF "scopes" \in DOMAIN cx THEN ScopesGet(cx.scopes, name)
+           ELSE FM_Get(cx.env, name)
   IN  IF r.found THEN [found |-> TRUE, v |-> Num(r.v)]
       ELSE OutsGet(cx.outs, name, Len(cx.outs))
 
@@ -116,5 +124,28 @@ Eval(e, cx, rs, pos) ==
                     ELSE IF WLe(a.v, W1) THEN Err("range", a.pos)
                     ELSE Draw(rs, a.pos, a.v)
            [] e.name = "signExt" -> Err("unimpl", pos)
+
+-----------------------------------------------------------------------------
+\* Evaluation of the entries of a data row, left to right.  bits(n,e) yields
+\* n one-bit entries, most significant first.
+RECURSIVE BitsOf(_, _)
+BitsOf(w, n) ==                       \* bits n-1 .. 0 of w
+  IF n = 0 THEN <<>>
+  ELSE <<[k |-> "num", v |-> WFromNat(WBit(w, n - 1))]>> \o BitsOf(w, n - 1)
+
+RECURSIVE EvalEntries(_, _, _, _, _, _)
+EvalEntries(entries, j, cx, rs, pos, acc) ==
+  IF j > Len(entries) THEN [ok |-> TRUE, entries |-> acc, pos |-> pos]
+  ELSE LET en == entries[j]
+       IN  CASE en.k = "expr" ->
+                  LET r == Eval(en.e, cx, rs, pos)
+                  IN  IF ~r.ok THEN r
+                      ELSE EvalEntries(entries, j + 1, cx, rs, r.pos,
+                                       Append(acc, [k |-> "num", v |-> r.v]))
+             [] en.k = "bits" ->
+                  LET r == Eval(en.e, cx, rs, pos)
+                  IN  IF ~r.ok THEN r
+                      ELSE EvalEntries(entries, j + 1, cx, rs, r.pos, acc \o BitsOf(r.v, en.n))
+             [] OTHER -> EvalEntries(entries, j + 1, cx, rs, pos, Append(acc, en))
 
 =============================================================================
